@@ -136,6 +136,9 @@ func sboxHistory(c *vfCase, mon sboxMon, events, epochMax int) *sbox {
 		if mon.c13 {
 			sb.quiescentC13()
 		}
+		if mon.c04 {
+			sb.quiescentC04()
+		}
 		if mon.c09 {
 			if sb.ctl.config == nil {
 				c.Count("quiescent-points-without-config")
@@ -248,6 +251,11 @@ func TestVerif_C05(t *testing.T) {
 func TestVerif_C09(t *testing.T) {
 	vfMain(t, "C09", vfSizes{Quick: 100, Thorough: 1500}, sboxRule+"at every quiescent point the announcements (layer-2 holdings and answers per address/interface, routes per live session, PeersForService) are compared with two freshly booted speakers on a copy of the store; non-trivial = distinct non-empty announcement state reached",
 		func(c *vfCase) { sboxHistory(c, sboxMon{c09: true}, 24, 2) })
+}
+
+func TestVerif_C04box(t *testing.T) {
+	vfMain(t, "C04", vfSizes{Quick: 150, Thorough: 2000}, sboxRule+"at every quiescent point, for every Service, this node holds its addresses in the layer-2 announcer iff it is the eligible node with the smallest sha256(node#first address), eligibility being computed from the resources by the statement of C04; non-trivial = distinct (eligible set of >= 2 nodes, first address, policy)",
+		func(c *vfCase) { sboxHistory(c, sboxMon{c04: true}, 26, 2) })
 }
 
 func TestVerif_C13(t *testing.T) {
